@@ -17,6 +17,7 @@ pub mod decoder;
 pub mod driver;
 pub mod faultchecks;
 pub mod dyntab;
+pub mod gates;
 pub mod genr;
 pub mod hist;
 pub mod histchecks;
